@@ -18,15 +18,15 @@ import (
 
 // wctx carries the arguments of the dependent weight functions (library constants).
 type wctx struct {
-	S   m3.Scope
-	MS  m3.ModifiedScope
-	PR  m3.PrivilegesRequired
-	AV  m3.AttackVector
-	AC  m3.AttackComplexity
-	UI  m3.UserInteraction
-	C   m3.ConfidentialityImpact
-	I   m3.IntegrityImpact
-	A   m3.AvailabilityImpact
+	S  m3.Scope
+	MS m3.ModifiedScope
+	PR m3.PrivilegesRequired
+	AV m3.AttackVector
+	AC m3.AttackComplexity
+	UI m3.UserInteraction
+	C  m3.ConfidentialityImpact
+	I  m3.IntegrityImpact
+	A  m3.AvailabilityImpact
 }
 
 // mapi is the uniform view of one metric type's API.
@@ -454,7 +454,7 @@ var codeAlphabet = []byte("NALPHRUCXFTWOMDSBE nlxdp01-\t")
 func TestC20(t *testing.T) {
 	c := begin(t, "C20")
 	defer c.end()
-	c.rec.F.Rule = "tables (complete): for all 22 v3 and 14 v2 metrics every code, its exported constant, printing, the validity predicates, every weight (PR per scope; every Modified metric at every own value x every base value; MPR over all 3 x 2 x 4 x 3 combinations of MS, S, MPR, PR) every integer in [-8, max+8] and integers aliasing a defined value under 8/16/32-bit truncation or carrying a second small number above it at any shift from 2 to 40 (no panic, print empty, same weight as the unknown value in every context; defined values under out-of-range contexts likewise); an ASCII character next to every two-byte rune in both orders (thorough: every valid UTF-8 string of at most 3 bytes) at every parser; long strings that start with a valid code (NUL / letter / blank fill at lengths 7..17, 255..257, 256+len, 512+len, 65536+len); codes: every string of length <= 3 over a 28-character alphabet (all code letters, lower case, digits, dash, space, tab) at every metric's parser plus rapid arbitrary strings; version: label parser/printer pairs of v3/metric and the legacy v3/version on generated labels and integers. Non-trivial = a string that is not a valid code of the metric (must parse to unknown), or a dependent-weight table; distinct by hash of (version, metric, string)."
+	c.rec.F.Rule = "tables (complete): for all 22 v3 and 14 v2 metrics every code, its exported constant, printing, the validity predicates, every weight (PR per scope; every Modified metric at every own value x every base value; MPR over all 3 x 2 x 4 x 3 combinations of MS, S, MPR, PR) every integer in [-8, max+8] and integers aliasing a defined value under 8/16/32-bit truncation or carrying a second small number above it at any shift from 2 to 40 (no panic, print empty, same weight as the unknown value in every context; defined values under out-of-range contexts likewise); an ASCII character next to every two-byte rune in both orders (thorough: every valid UTF-8 string of at most 3 bytes) at every parser; long strings that start with a valid code (NUL / letter / blank fill at lengths 7..17, 255..257, 256+len, 512+len, 65536+len); codes: every string of length <= 3 over a 28-character alphabet (all code letters, lower case, digits, dash, space, tab) at every metric's parser plus rapid arbitrary strings; version: every byte string of length <= 3 as label at the prefix parser (behind CVSS:) and at the legacy v3/version parser (complete; thorough also 4-byte labels over a 24-byte alphabet), plus label parser/printer pairs on generated labels and integers. Non-trivial = a string that is not a valid code of the metric (must parse to unknown), or a dependent-weight table; distinct by hash of (version, metric, string)."
 	c.rec.F.Assumptions = []string{"weights compared with ==: both sides are the nearest double of the same decimal literal", "for the v2 base metrics only separation by IsUnknown is required (its sense is the negation of its name)"}
 	nviol := 0
 	if shard == 0 {
@@ -617,6 +617,58 @@ func TestC20(t *testing.T) {
 		c.rec.Case("rapid-codes", fmt.Sprintf("%d|%s|%s", a.ver, a.name, s), !valid, cl)
 		evalCase(c, rt, "code", cs, checkC20Code)
 	})
+	// ---- version labels: every byte string of length <= 3 (16,843,009 labels, complete) behind
+	// "CVSS:" at the prefix parser and bare at the legacy label parser; only "3.0" and "3.1"
+	// may parse to a version. Thorough: also every 4-byte label over a 24-byte alphabet.
+	{
+		var evals int64
+		nviol := 0
+		try := func(label []byte) {
+			evals++
+			s := string(label)
+			v, _ := m3.GetVersion("CVSS:" + s)
+			n := v3ver.Get(s)
+			if (v != m3.VUnknown) != (s == "3.0" || s == "3.1") || (n != v3ver.Unknown) != (s == "3.0" || s == "3.1") {
+				evalEnum(c, "version", verCase{Label: []byte("CVSS:" + s), Text: strconv.Quote("CVSS:" + s), Int: 0}, checkC20Version, &nviol)
+				evalEnum(c, "version", verCase{Label: label, Text: strconv.Quote(s), Int: 0}, checkC20Version, &nviol)
+			}
+		}
+		buf := make([]byte, 0, 4)
+		for a := 0; a < 256 && nviol == 0; a++ {
+			if !mine(a) {
+				continue
+			}
+			if a == 0 {
+				try(buf[:0])
+			}
+			try(append(buf[:0], byte(a)))
+			for b := 0; b < 256; b++ {
+				try(append(buf[:0], byte(a), byte(b)))
+				for d := 0; d < 256; d++ {
+					try(append(buf[:0], byte(a), byte(b), byte(d)))
+				}
+			}
+		}
+		if thorough() {
+			alpha := []byte("0123456789.:/;<=>?@ACDENOv \x00")
+			for i, a := range alpha {
+				if !mine(i) || nviol > 0 {
+					continue
+				}
+				for _, b := range alpha {
+					for _, d := range alpha {
+						for _, e := range alpha {
+							try(append(buf[:0], a, b, d, e))
+						}
+					}
+				}
+			}
+		}
+		c.rec.Bulk("version-labels", evals, evals, map[string]int64{"version-label<=3-bytes": evals})
+		if shard == 0 {
+			c.rec.F.Exhaustive = append(c.rec.F.Exhaustive, "every byte string of length <= 3 as version label at both label parsers")
+		}
+	}
 	c.rapidStage("rapid-version", pick(20000, 500000), func(rt *rapid.T) {
 		var s string
 		switch rapid.IntRange(0, 3).Draw(rt, "kind") {
